@@ -40,6 +40,9 @@ class SingleSched:
     def spawn(self, t: int, copy_ctx: bool) -> None:
         raise RuntimeError("spawn in a single-task run")
 
+    def suspension(self) -> Any:
+        return Susp()
+
     def run_coro_inline(self, coro: Any) -> Any:
         rt = self.rt
         fault = rt.prog["fault"]
@@ -145,6 +148,9 @@ class ThreadSched:
             self.turn = 0
             self.cv.notify_all()
 
+    def suspension(self) -> Any:
+        return Susp()
+
     def run_coro_inline(self, coro: Any) -> Any:
         # thread-like tasks may call async callables: drive them to completion, each suspension is an event
         rt = self.rt
@@ -210,6 +216,9 @@ class AsyncSched:
         await rt.run_script_async(list(rt.prog["drv"][t - 1]), "drv")
         rt.emit("end", t, 0, 0, 0, "ret")
 
+    def suspension(self) -> Any:
+        return Susp()
+
     def run_coro_inline(self, coro: Any) -> Any:
         raise RuntimeError("sync code calling an async callable inside an asyncio-like task")
 
@@ -267,3 +276,102 @@ class AsyncSched:
                         coro.close()
                     except BaseException:  # noqa
                         pass
+
+
+class RealAsyncSched:
+    """Real asyncio tasks on a real event loop, scheduled deterministically.
+
+    Every task parks on a future whenever the program says "await"; the scheduler (a task of its own that never
+    runs contracted code) resolves the future of the task chosen by the schedule and waits until that task parks
+    again or finishes, so exactly one task runs at a time and the switch points are the suspension points.
+    """
+
+    def __init__(self, rt: Runtime, choose: Callable[[List[int], int], int]) -> None:
+        self.rt = rt
+        rt.sched = self
+        self.choose = choose
+        self.loop = None  # type: Any
+        self.tasks = {}  # type: Dict[int, Any]
+        self.state = {}  # type: Dict[int, str]
+        self.go = {}  # type: Dict[int, Any]
+        self.parked = None  # type: Any
+        self.running = 0
+
+    def spawn(self, t: int, copy_ctx: bool) -> None:
+        ctx = contextvars.copy_context() if copy_ctx else contextvars.Context()
+        self.state[t] = "new"
+        self.go[t] = self.loop.create_future()
+        self.tasks[t] = self.loop.create_task(self._task_main(t), context=ctx)
+
+    def _signal_parked(self) -> None:
+        if self.parked is not None and not self.parked.done():
+            self.parked.set_result(None)
+
+    async def _task_main(self, t: int) -> None:
+        rt = self.rt
+        try:
+            await self.go[t]
+            rt.tls.t = t
+            await rt.run_script_async(list(rt.prog["drv"][t - 1]), "drv")
+            rt.emit("end", t, 0, 0, 0, "ret")
+        except HarnessAbort:
+            pass
+        except asyncio.CancelledError:
+            pass
+        finally:
+            self.state[t] = "done"
+            self._signal_parked()
+
+    def suspension(self) -> Any:
+        return self._park(self.rt.task())
+
+    async def _park(self, t: int) -> None:
+        rt = self.rt
+        rt.ns += 1
+        fault = rt.prog["fault"]
+        self.state[t] = "susp!" if (fault["at"] == -1 and fault["n"] == rt.ns) else "susp"
+        self.go[t] = self.loop.create_future()
+        self._signal_parked()
+        try:
+            await self.go[t]
+        finally:
+            rt.tls.t = t
+
+    def run_coro_inline(self, coro: Any) -> Any:
+        raise RuntimeError("sync code calling an async callable inside an asyncio task")
+
+    async def _main(self) -> None:
+        rt = self.rt
+        self.loop = asyncio.get_running_loop()
+        self.spawn(1, copy_ctx=False)
+        step = 0
+        while True:
+            ready = sorted(t for t, s in self.state.items() if s in ("new", "susp", "susp!"))
+            if not ready:
+                break
+            t = self.choose(ready, step)
+            if t not in ready:
+                break
+            step += 1
+            self.parked = self.loop.create_future()
+            rt.tls.t = t
+            if self.state[t] == "susp":
+                rt.emit("res", 0)
+                self.go[t].set_result(None)
+            elif self.state[t] == "susp!":
+                rt.emit("throw", 0, 0, 0, 0, "Cancelled")
+                self.tasks[t].cancel()
+            else:
+                self.go[t].set_result(None)
+            self.state[t] = "running"
+            await self.parked
+        for t, task in self.tasks.items():
+            if not task.done():
+                task.cancel()
+        await asyncio.sleep(0)
+
+    def run(self) -> None:
+        try:
+            asyncio.run(self._main())
+        except HarnessAbort:
+            pass
